@@ -92,6 +92,16 @@ fn main() {
             }
             println!("inconclusive={} nontrivial={} virtual_ms={}", o.inconclusive, o.nontrivial, o.virtual_ms);
         }
+        "plans" => {
+            // dst plans: "<property> <engine> <family> <quick> <thorough>" per plan item (used to keep DESIGN.md in step)
+            for p in registry::properties() {
+                if let Some(plan) = registry::plan(p) {
+                    for it in &plan.items {
+                        println!("{p} {} {} {} {}", it.family.engine(), it.family.name(), it.quick, it.thorough);
+                    }
+                }
+            }
+        }
         "gen" => {
             if args.len() < 5 {
                 usage();
